@@ -121,10 +121,10 @@ def m_box_new(ex, a, t): return BoxObj(a[0])
 def m_vec_new(ex, a, t): return VecObj([])
 def m_slice_len(ex, a, t): return z3.BitVecVal(len(target(a[0]).items), 64)
 def m_slice_index_mut(ex, a, t): return m_vec_index(ex, a, t)
-def m_dur_lt(ex, a, t): return z3.ULT(target(a[0]), target(a[1]))
-def m_inst_ge(ex, a, t): return z3.UGE(target(a[0]), target(a[1]))
-def m_inst_le(ex, a, t): return z3.ULE(target(a[0]), target(a[1]))
-def m_inst_gt(ex, a, t): return z3.UGT(target(a[0]), target(a[1]))
+def m_dur_lt(ex, a, t): return target(a[0]) < target(a[1])
+def m_inst_ge(ex, a, t): return target(a[0]) >= target(a[1])
+def m_inst_le(ex, a, t): return target(a[0]) <= target(a[1])
+def m_inst_gt(ex, a, t): return target(a[0]) > target(a[1])
 def m_oneshot_channel(ex, a, t):
     tx = OneshotTx(); rx = OneshotRx(tx); return Tuple([tx, rx])
 class OneshotRx:
